@@ -17,7 +17,7 @@ EXPLANATION = (
     "(`addr_of!(ptr) as usize` is the address of the pointer variable, not of the buffer) - the end bound and the current position derive from the pointers' values; the same lint is reported as a note elsewhere; "
     "C16.2 try_accept / try_connect (Unix and TCP) and TcpStreamInProgress::try_connect reach no poll/epoll/sleep/futex wrapper, and every socket()/accept4() in tiny-std's net module carries SOCK_NONBLOCK|SOCK_CLOEXEC; "
     "C16.3 Error::Timeout is constructed only on the `ppoll(..) == Ok(0)` edge; the Duration reaches ppoll as a TimeSpec converted once by the library's own TryFrom<Duration> (whose tv_sec/tv_nsec are as_secs()/subsec_nanos() unmodified, so no part of the limit is dropped), None stays a null timeout, EINTR re-polls (and only EINTR), and after readiness the operation is retried with the same arguments; "
-    "C16.4 at every raw syscall site in rusl a (pointer, length) pair taken from a slice comes from ONE slice; "
+    "C16.6 every stream read/write entry point forwards its own descriptor, the caller's whole buffer and limit to the matching transfer helper and returns its count; the helpers pass (sock, buf) to read/write unchanged; C16.4 at every raw syscall site in rusl a (pointer, length) pair taken from a slice comes from ONE slice; "
     "C16.5 sockaddr_in gets the port in network order and the address bytes in memory order; the Unix address conversion rejects a path that has no terminator within 108 bytes and reports len(path incl. NUL) + size_of(sa_family_t). "
     "NOT decided: in-order complete delivery when buffers fill, completion of blocking calls when the peer acts, timing bounds (kernel and scheduling).")
 ASSUMPTIONS = ["struct msghdr / cmsghdr layout of Linux", "ppoll returns 0 exactly on timeout"]
@@ -192,6 +192,48 @@ def run_one(ck, prog):
             ck.ob("C16.2", f"{p.split('net::')[-1]}|nonblock+cloexec|{t['callee'].split('::')[-1]}", bool(ok), fn=p, site=ctx.site(bb),
                   detail=f"sockets are created/accepted with flags {fl}; SOCK_NONBLOCK ({nb}) and SOCK_CLOEXEC ({ce}) are both required (the try/timeout logic assumes non-blocking descriptors)")
     ck.floor("C16.2", "socket/accept sites in net", n_sock, 8)
+
+    # ---- C16.6 stream adapters: every read/write entry point of a stream hands its own descriptor and the caller's whole buffer to
+    # the matching transfer helper (read -> read helper, write -> write helper), passes the caller's limit (or none) and returns the count
+    n_ad = 0
+    for p_, fn_ in sorted(prog.fns.items()):
+        if fn_["crate"] != "tiny_std" or "::net::" not in p_ and "tiny_std::net::" not in p_:
+            continue
+        last = p_.split("::")[-1]
+        kind = "read" if last.startswith("read") else "write" if last.startswith("write") else None
+        c6 = None
+        for b in fn_["blocks"]:
+            t = b["term"]
+            if t["k"] != "call" or b.get("cleanup"):
+                continue
+            cal = t.get("callee") or ""
+            if not cal.endswith(("sock::blocking_read_nonblock_sock", "sock::blocking_write_nonblock_sock")):
+                continue
+            c6 = c6 or prog.ctx(fn_)
+            if b["id"] not in c6.cfg.live_blocks():
+                continue
+            n_ad += 1
+            a = c6.args(b["id"])
+            helper_kind = "read" if "blocking_read" in cal else "write"
+            fd_ok = mentions(a[0], c6.prov, lambda z: z[0] == "param" and z[1] == 1) and not mentions(a[0], c6.prov, lambda z: z[0] in ("bin", "call"))
+            buf_ok = canon(strip_casts(a[1])).replace("*", "").replace("&", "") == "p2"
+            to = strip_casts(a[2])
+            if fn_["argc"] >= 3:
+                to_ok = isinstance(to, tuple) and to[0] == "agg" and to[2] == "Some" and canon(strip_casts(to[3][0])) == "p3"
+            else:
+                to_ok = isinstance(to, tuple) and to[0] == "agg" and to[2] == "None"
+            ret_ok = t["dst"]["l"] == 0 and not t["dst"].get("p")
+            ck.ob("C16.6", f"{p_.split('net::')[-1]}|adapter-forwards-unchanged", kind == helper_kind and fd_ok and buf_ok and to_ok and ret_ok, fn=p_, site=c6.site(b["id"]),
+                  detail=f"a stream's {last} must call the {kind} helper (calls the {helper_kind} helper) on its own descriptor ({fd_ok}) with the caller's whole buffer ({buf_ok}) and limit ({to_ok}) and return its result ({ret_ok})")
+    ck.floor("C16.6", "stream read/write adapters", n_ad, 5 if ck.config != "C" else 0)
+    for hn, sysn in (("blocking_read_nonblock_sock", "unistd::read::read"), ("blocking_write_nonblock_sock", "unistd::write::write")):
+        hf = prog.fns.get("tiny_std::sock::" + hn)
+        if hf is None:
+            continue
+        hc = prog.ctx(hf)
+        ops = [bb for bb, t in hc.cfg.calls(lambda t: (t.get("callee") or "").endswith(sysn))]
+        good = bool(ops) and all(canon(strip_casts(hc.args(bb)[0])) == "p1" and canon(strip_casts(hc.args(bb)[1])).replace("*", "").replace("&", "") == "p2" for bb in ops)
+        ck.ob("C16.6", f"{hn}|transfers-the-callers-buffer-on-the-callers-socket", good, fn=hf["path"], detail=f"every {sysn.split('::')[-1]} in {hn} must be (sock, buf) exactly as received; sites {len(ops)}")
 
     # ---- C16.3 the Duration -> TimeSpec conversion keeps the whole limit (seconds and the full sub-second part) --------------------------
     cv = [fn for p, fn in prog.fns.items() if p.endswith("TimeSpec as core::convert::TryFrom<core::time::Duration>>::try_from")]
